@@ -374,7 +374,14 @@ Symbol *env_get_var_visible_at(Environment *env, const char *name, int line, int
 void env_set_var(Environment *env, const char *name, Value value) {
     Symbol *sym = env_get_var(env, name);
     if (sym) {
-        env_free_value(sym->value);
+        /* A struct value is shared, never copied: `let c: P = p`, passing p to a function, storing p in a
+         * field of another struct and returning it all hand out the same StructValue, and no other place of the
+         * interpreter frees the struct values of locals.  Freeing the old value here left every other holder
+         * with a dangling pointer (reads of the "copy" crashed or showed the NEW value once the allocator
+         * reused the block).  Rebinding the variable is all `set` has to do. */
+        if (sym->value.type != VAL_STRUCT) {
+            env_free_value(sym->value);
+        }
         sym->value = value;
 
         /* GC refcount fix: If the new string value is already referenced by
